@@ -110,6 +110,12 @@ func TestVerif_C09_Child(t *testing.T) {
 	}
 	for _, e := range plan {
 		verifFill(verifC09Key[:], e.KeyC, 1)
+		var rki int
+		var rkv uint32
+		if n, _ := fmt.Sscanf(e.KeyC, "rk:%d:%x", &rki, &rkv); n == 2 {
+			// a key CRAFTED (key schedule run backwards) so that round key rki has the extreme value rkv
+			copy(verifC09Key[:], sm4ref.KeyForRoundKey(rki, rkv, [3]uint32{0x9e3779b9, 0x7f4a7c15, uint32(rki) * 0x01000193}))
+		}
 		expandKey(verifC09Key[:], &verifC09Enc, &verifC09Dec) // portable Go code: not traced
 		switch e.Op {
 		case "expandKey":
@@ -167,7 +173,7 @@ func TestVerif_C09_Child(t *testing.T) {
 
 func TestVerif_C09_Trace(t *testing.T) {
 	rec := stats.Get("C09", "asm-traces")
-	rec.Rule("rapid draws groups (routine, lengths[, verdict]): expandKeyAsm; cryptoBlockAsm x1/x2/x4/x8/x16 with enc and dec keys; gHashBlocks count 1..20; copyAsm; sealAsm/openAsm with plaintext/aad lengths from the kernel-combination generator (0..1100), nonce length {12,1,8,16,17,128,130}, tag 12..16, and for openAsm authentic vs forged; each group is executed with 4-6 content variants drawn from {two uniform seeds, all-00, all-FF, AA55, single bit} independently for key, nonce, aad and text (and, for forged messages, different positions/values of the wrong tag byte). A ptrace single-stepper records for every executed instruction its address and the effective address of every memory operand (decoded from objdump); stack addresses are taken relative to the entry stack pointer. Oracle: within a group all traces are identical. One case = one traced call; non-trivial: every call in a group with >= 3 variants including an extreme content; distinct by (group, contents).")
+	rec.Rule("rapid draws groups (routine, lengths[, verdict]): expandKeyAsm; cryptoBlockAsm x1/x2/x4/x8/x16 with enc and dec keys; gHashBlocks count 1..20; copyAsm; sealAsm/openAsm with plaintext/aad lengths from the kernel-combination generator (0..1100), nonce length {12,1,8,16,17,128,130}, tag 12..16, and for openAsm authentic vs forged; each group is executed with 6-8 content variants drawn from {two uniform seeds, all-00, all-FF, AA55, single bit} independently for key, nonce, aad and text, plus keys CRAFTED by running the key schedule backwards so that one round key (index 0,1,2,3,4,15,16,28..31) is 00000000 or ffffffff (and, for forged messages, different positions/values of the wrong tag byte). A ptrace single-stepper records for every executed instruction its address and the effective address of every memory operand (decoded from objdump); stack addresses are taken relative to the entry stack pointer. Oracle: within a group all traces are identical. One case = one traced call; non-trivial: every call in a group with >= 3 variants including an extreme content; distinct by (group, contents).")
 	t.Cleanup(stats.FlushAll)
 	if !candoAsm {
 		rec.Skipped("CPU lacks GFNI/AVX512/VPCLMULQDQ: the assembly cannot be executed here")
@@ -180,10 +186,16 @@ func TestVerif_C09_Trace(t *testing.T) {
 	}
 	var plan []verifC09Entry
 	contents := []string{"seed:1", "seed:2", "zero", "ff", "aa55", "bit:5", "bit:77"}
+	// keys whose round key i is 0 / all ones (found by running the key schedule backwards): a branch or address that depends on
+	// one round-key word shows only for such keys (probability 2^-32 under uniform keys)
+	var crafted []string
+	for _, i := range []int{0, 1, 2, 3, 4, 15, 16, 28, 29, 30, 31} {
+		crafted = append(crafted, fmt.Sprintf("rk:%d:00000000", i), fmt.Sprintf("rk:%d:ffffffff", i))
+	}
 	rapid.Check(t, func(t *rapid.T) {
 		pick := func(label string) string { return contents[gen.Uniform(t, label, 0, len(contents)-1)] }
 		op := gen.Pick(t, "op", "expandKey", "block", "block", "ghash", "copy", "seal", "seal", "seal", "open", "open", "open")
-		nv := gen.Int(t, "variants", 4, 6)
+		nv := gen.Int(t, "variants", 6, 8)
 		base := verifC09Entry{Op: op, Forge: -1}
 		switch op {
 		case "expandKey":
@@ -224,6 +236,14 @@ func TestVerif_C09_Trace(t *testing.T) {
 			e.KeyC, e.NonceC, e.AadC, e.TextC = pick("keyc"), pick("noncec"), pick("aadc"), pick("textc")
 			if v == 0 {
 				e.KeyC, e.NonceC, e.AadC, e.TextC = "seed:1", "seed:1", "seed:1", "seed:1"
+			}
+			switch v {
+			case nv - 1:
+				e.KeyC = "rk:31:00000000" // last round key zero
+			case nv - 2:
+				e.KeyC = "rk:0:00000000" // first round key zero
+			case nv - 3:
+				e.KeyC = crafted[gen.Uniform(t, "crafted", 0, len(crafted)-1)]
 			}
 			if base.Forge >= 0 {
 				e.Forge = gen.Uniform(t, "forgepos", 0, 16*3-1) // tag byte (mod tag size) and xor value 1..3
